@@ -38,8 +38,15 @@ func NewHistogramReporter(h *Histogram) Reporter {
 			return err
 		}
 
+		if len(h.Counts) != len(h.Buckets) {
+			h.Counts = make([]uint64, len(h.Buckets))
+		}
+
 		for i, count := range h.Counts {
-			ratio := float64(count) / float64(h.Total)
+			var ratio float64
+			if h.Total > 0 {
+				ratio = float64(count) / float64(h.Total)
+			}
 			lo, hi := h.Buckets.Nth(i)
 			pad := strings.Repeat("#", int(ratio*75))
 			_, err = fmt.Fprintf(tw, "[%s,\t%s]\t%d\t%.2f%%\t%s\n", lo, hi, count, ratio*100, pad)
